@@ -297,7 +297,8 @@ inline int harnessMain(int argc, char** argv, const Harness& h) {
 		std::string params = "seed=" + std::to_string(rcSeed) + " max_success=" + std::to_string(mine)
 							 + " max_size=100 max_discard_ratio=20";
 		setenv("RC_PARAMS", params.c_str(), 1);
-		for (int round = 0; round < 6; round++) {
+		const int maxRounds = args.tier == "thorough" ? 4 : 2;
+		for (int round = 0; round < maxRounds; round++) {
 			run.haveCandidate = false;
 			int ok = vf_rc_check(h.id, detail::propThunk, &ctx, h.maxTape);
 			if (ok)
